@@ -86,6 +86,17 @@ def build_module(mod):
     return out, time.time() - t0
 
 
+VLIMIT_KB = 16 * 1024 * 1024  # address-space limit of every child: a runaway allocation kills the child, not the sandbox
+
+
+def _limit():
+    import resource
+    try:
+        resource.setrlimit(resource.RLIMIT_AS, (VLIMIT_KB * 1024, VLIMIT_KB * 1024))
+    except Exception:
+        pass
+
+
 def run_child(binary, scenario, seed0, runs, tier, procs, outfile, variant="", plan=None, tape=False, timeout=600):
     cmd = [binary, "-test.run", "^TestVerif$", "-test.timeout", "0", "-verif.scenario", scenario,
            "-verif.seed0", str(seed0), "-verif.runs", str(runs), "-verif.tier", tier, "-verif.out", outfile,
@@ -97,7 +108,7 @@ def run_child(binary, scenario, seed0, runs, tier, procs, outfile, variant="", p
     if tape:
         cmd += ["-verif.tape"]
     try:
-        p = subprocess.run(cmd, capture_output=True, text=True, timeout=timeout, cwd=TMP)
+        p = subprocess.run(cmd, capture_output=True, text=True, timeout=timeout, cwd=TMP, preexec_fn=_limit)
         return p.returncode, p.stdout[-6000:] + p.stderr[-12000:], False
     except subprocess.TimeoutExpired as e:
         so = (e.stdout or b"")
